@@ -209,7 +209,7 @@ def correspond(ctx):
     for li in range(ctx.scale(4, 24)):
         n = rng.choice([30, 36, 45, 60]) if li else 40
         sname = "yices" if li % 2 == 0 else "z3"
-        vs = [z3.BitVec(f"p_c{li}_{k}_uint256", 256) for k in range(n)]
+        vs = [z3.BitVec(f"p_c{li}_{k}_uint32", 32) for k in range(n)]
         chain = [z3.ULT(vs[k], vs[(k + 1) % n]) for k in range(n)]
         on = Pipeline(eng, True, solver_cmds[sname])
         pA = Path(mk_solver(eng.base_args))
@@ -468,13 +468,13 @@ def correspond(ctx):
         return nq, len(breaches), len(flips)
 
     tot = [0, 0, 0]
-    for hi in range(ctx.scale(4, 40)):
-        r = path_history(f"branch{hi}", "yices" if hi % 3 else "z3", steps=ctx.scale(30, 80))
+    for hi in range(ctx.scale(3, 40)):
+        r = path_history(f"branch{hi}", "yices" if hi % 3 else "z3", steps=ctx.scale(25, 80))
         tot = [a + b for a, b in zip(tot, r)]
 
     # the same through the real SEVM: programs with several JUMPIs on symbolic calldata, paths taken lazily from the DFS
     # generator and dropped after their query (parked siblings live on SEVM's worklist)
-    for pi in range(ctx.scale(4, 30)):
+    for pi in range(ctx.scale(3, 30)):
         items, desc = K.gen_program(rng, rng.choice([3, 4, 4]), [i for i in ints if i < 2**256] + [3, 5, 7], nvars=3, ops=["ADD", "SUB", "AND"])
         code = K.asm(items)
         name = "yices" if pi % 2 else "z3"
